@@ -313,7 +313,33 @@ PROBES = {
 }
 
 
+def json_roundtrip(doc):
+    """One JSON sample -> serialized output text of the generated model, or None when generation / parsing fails."""
+    docs = {"s0/doc.json": json.dumps(doc).encode()}
+    res = gen.generate(docs, entry=sorted(docs), config={}, route="api", hooks=False, timeout=120)
+    if res.status != "ok":
+        return None
+    run = gen.run_in_package(res.files, POST_SCRIPT, args={"modules": gen.package_modules(res.files), "docs": [docs[n].decode() for n in sorted(docs)], "kind": "json", "root_class": "Doc"}, timeout=120)
+    if run.status != "ok" or "out" not in run.result[0]:
+        return None
+    return json.loads(run.result[0]["out"])
+
+
+def probe_json_string_that_looks_like_a_number():
+    """Known finding: a JSON *string* whose text is the canonical spelling of a number or boolean is inferred as that type
+    and written back as a JSON number / boolean. Counterfactual: a string that does not look like one round-trips."""
+    bad = json_roundtrip({"id": "7", "flag": "false", "ratio": "1.5"})
+    good = json_roundtrip({"id": "x7", "flag": "no", "ratio": "1.5x"})
+    return good == {"id": "x7", "flag": "no", "ratio": "1.5x"} and bad is not None and bad != {"id": "7", "flag": "false", "ratio": "1.5"}
+
+
 def run_probes(ctx):
+    ctx.evals()
+    try:
+        if probe_json_string_that_looks_like_a_number():
+            ctx.known_finding("C13/json-string-that-looks-like-a-number-becomes-a-number")
+    except Exception as e:  # noqa: BLE001
+        ctx.inconc(f"probe failed to run: {type(e).__name__}: {e}")
     for key, (bad, good) in PROBES.items():
         ctx.evals()
         rb, rg = sample_roundtrip(bad), sample_roundtrip(good)
